@@ -74,7 +74,9 @@ func (m *Meta) IsAlias() bool {
 }
 
 func (m *Meta) IsSelf(o *Meta) bool {
-	return m.Value.Pointer() == o.originAddress
+	//the address alone does not identify a component: the first field of a struct shares the struct's address
+	//and all zero-size objects share one address, so the type has to be the same as well
+	return m.Value.Pointer() == o.originAddress && m.Type == o.Type
 }
 
 func (m *Meta) dependOn(dependent *Meta) {
